@@ -28,10 +28,11 @@ summary=$(tail -1 /tmp/confirm/$id.suite.log | sed 's/\x1b\[[0-9;]*m//g')
 echo "demo clean rc=$rc_clean (want 0); demo patched rc=$rc_patched (want !=0); suite extra failures=$fails (load-flaky, pass when re-run alone:$flaky); suite: $summary"
 if [ $rc_clean -eq 0 ] && [ $rc_patched -ne 0 ] && [ "$fails" -eq 0 ]; then
   mkdir -p "/verif/seeded/$name"
-  cp "$src/patch.diff" "/verif/seeded/$name/patch.diff"; cp "$src/$demo" "/verif/seeded/$name/demo_test.py"
+  cp "$src/patch.diff" "/verif/seeded/$name/patch.diff"; [ -f "$src/patch.orig.diff" ] && cp "$src/patch.orig.diff" "/verif/seeded/$name/patch.orig.diff"; cp "$src/$demo" "/verif/seeded/$name/demo_test.py"
   python3 - "$src/meta.json" "/verif/seeded/$name/meta.json" "$summary" <<'PY'
 import json,sys
 m=json.load(open(sys.argv[1]))
+if __import__("os").path.exists(sys.argv[1].replace("meta.json","patch.orig.diff")): m["ported"]="the sub-agent wrote this change against the tree before the fix: commits; the orchestrator ported the same change onto the repaired tree (original kept as patch.orig.diff)"
 m["confirmed_by_orchestrator"]={"demo_on_clean_tree":"pass","demo_with_patch":"fail","full_suite_with_patch":sys.argv[3]+" (the baseline's always-failing test__view_urlencoded::test_view_urlencoded fails; any other failure was a timing flake under machine load and passed when re-run alone with the patch)","how":"tools/confirm_seed.sh in a scratch worktree under /tmp/confirm, removed afterwards"}
 json.dump(m,open(sys.argv[2],"w"),indent=1)
 PY
